@@ -347,6 +347,10 @@ def s_slice_get_range(ex, callee, args, dest_ty):
         s = r.f[0].e
         e = sl.len
         ok = z3.ULE(s, sl.len)
+    elif r.ty == "RangeTo":
+        s = bv(0)
+        e = r.f[0].e
+        ok = z3.ULE(e, sl.len)
     else:
         raise Unsupported("slice get with " + r.ty)
     i = ex.ctx.choose([("some", ok), ("none", z3.Not(ok))])
@@ -930,7 +934,7 @@ def install(prog):
     S.append((R(r"^HashMap::<.*>::get::"), s_map_get))
     S.append((R(r"^HashMap::<.*>::insert$"), s_map_insert))
     S.append((R(r"^HashMap::<.*>::clear$"), s_map_clear))
-    S.append((R(r"^core::slice::<impl \[u8\]>::get::<std::ops::Range(From)?<usize>>$"), s_slice_get_range))
+    S.append((R(r"^core::slice::<impl \[u8\]>::get::<(std::ops::)?Range(From|To)?<usize>>$"), s_slice_get_range))
     S.append((R(r"^<SectionHeader as ParseAt>::parse_at"), s_parse_at("SectionHeader", SHDR_FIELDS)))
     S.append((R(r"^<ProgramHeader as ParseAt>::parse_at"), s_parse_at("ProgramHeader", PHDR_FIELDS)))
     for (nm, w, sg) in (("u8", 8, False), ("u16", 16, False), ("u32", 32, False), ("u64", 64, False), ("i32", 32, True), ("i64", 64, True)):
@@ -972,7 +976,7 @@ def install(prog):
     S.append((R(r"^Vec::<\w+>::with_capacity$"), s_vec_with_capacity))
     S.append((R(r"^<Vec<\w+> as Extend<\w+>>::extend::<"), s_vec_extend))
     S.append((R(r"^core::slice::<impl \[u8\]>::len$"), s_slice_len))
-    S.append((R(r"^<\[u8\] as Index<std::ops::Range(From|To)?<usize>>>::index$|^core::slice::index::<impl Index<std::ops::Range(From|To)?<usize>> for \[u8\]>::index$"), s_slice_index_range))
+    S.append((R(r"^<\[u8\] as Index<(std::ops::)?Range(From|To)?<usize>>>::index$"), s_slice_index_range))
     S.append((R(r"^<\w+ as Clone>::clone$"), lambda ex, c, a, d: (a[0].load() if isinstance(a[0], Ref) else a[0])))
     S.append((R(r"^(std|core)::mem::size_of::<\w+>$"), s_size_of))
     S.append((R(r"^<CompressionHeader as ParseAt>::parse_at"), s_parse_at("CompressionHeader", CHDR_FIELDS)))
